@@ -136,6 +136,9 @@ impl Indentation {
  pub fn additional(&mut self, additional_indent: usize) -> (r: &[u8])
         requires old(self).inv(), old(self).current_indent_len + additional_indent <= usize::MAX
         ensures r@.len() == old(self).current_indent_len + additional_indent, forall|i: int| 0 <= i < r@.len() ==> r@[i] == old(self).indent_char,
+            // only the cache of indent characters may grow
+            final(self).inv(), final(self).indent_char == old(self).indent_char, final(self).indent_size == old(self).indent_size,
+            final(self).current_indent_len == old(self).current_indent_len, final(self).should_line_break == old(self).should_line_break,
  {
         let new_len = self.current_indent_len + additional_indent;
         self.ensure(new_len);
@@ -183,6 +186,7 @@ impl<W: Write> Writer<W> {
         ensures
             // C19 / C08: the payload is written untouched between its delimiters; indentation adds only pre()
             res is Ok ==> final(self).writer.out() == old(self).writer.out() + old(self).pre(event) + render(event),
+            res is Ok ==> wrote(*old(self), event, *final(self)),
             old(self).indent is None ==> final(self).indent is None,
             res is Ok ==> (old(self).indent matches Some(i0) ==> (final(self).indent matches Some(i1)
                 && i1.inv() && i1.indent_char == i0.indent_char && i1.indent_size == i0.indent_size
@@ -225,6 +229,14 @@ impl<W: Write> Writer<W> {
         };
         if let Some(i) = self.indent.as_mut() {
             i.should_line_break = next_should_line_break;
+        }
+        proof {
+            if result is Ok {
+                let w0 = *old(self); let w1 = *self;
+                assert(w1.writer.out() == w0.writer.out() + w0.pre(event) + render(event));
+                assert(w0.indent is None ==> w1.indent is None);
+                assert(wrote(w0, event, w1));
+            }
         }
         result
     }
